@@ -15,6 +15,7 @@ mod c10;
 mod c12;
 mod c13;
 mod c14;
+mod fuzz;
 mod c15;
 mod c18;
 mod c19;
@@ -44,7 +45,7 @@ fn main() {
     panic::set_hook(Box::new(|_| {}));
     let mut r = Report::new();
     match prop {
-        "C14" => { c14::run(&mut r); c20::run(&mut r); c03::run(&mut r) }
+        "C14" => { c14::run(&mut r); fuzz::run(&mut r); c20::run(&mut r); c03::run(&mut r) }
         "C18" => c18::run(&mut r),
         "C19" => c19::run(&mut r),
         "C20" => c20::run(&mut r),
